@@ -430,6 +430,10 @@ FIXED = [
     ([("mkdir", "W/a"), ("mkdir", "W/b"), ("create", "W/a/x")],
      [("rename", "W/a", "W/b"), ("rename", "W/b", "O/b"), ("create", "O/b/y"), ("unlink", "O/b/x"), ("mkdir", "W/b"),
       ("create", "W/b/x")]),
+    # a directory renamed onto an empty one, then their parent renamed, then a change inside the survivor (its map entry
+    # must have survived the replaced watch's IN_IGNORED to be re-keyed with the parent)
+    ([("mkdir", "W/d"), ("mkdir", "W/d/a"), ("mkdir", "W/d/b"), ("create", "W/d/a/x")],
+     [("rename", "W/d/a", "W/d/b"), ("create", "W/d/b/a"), ("rename", "W/d", "W/dd"), ("create", "W/dd/b/b"), ("unlink", "W/dd/b/x")]),
 ]
 
 
